@@ -434,6 +434,15 @@ func AdvanceTo(ns int64) {
 	Quiesce()
 }
 
+// Stall models the whole process not being scheduled for d nanoseconds (SIGSTOP, a paused VM, a stepped wall
+// clock): the clock moves on while nothing runs; every timer that became due meanwhile fires afterwards, in
+// deadline order, at the new instant.
+func Stall(d int64) {
+	Quiesce()
+	R.now += d
+	Quiesce()
+}
+
 // SetExplore switches the explorer's control of choices on or off (off: always choice 0).
 func SetExplore(on bool) { R.explore = on }
 func Exploring() bool    { return R.explore }
